@@ -131,10 +131,11 @@ type caseSpec struct {
 	Identical  bool // A and B are equal in everything the result depends on
 	RemotePath string
 	NT         bool
+	Forwarded  string // which request parts the mechanism forwards: both | headers | cookies | none
 }
 
 func (c caseSpec) String() string {
-	return fmt.Sprintf("%s/%s %s A=%+v B=%+v execA=%v execB=%v", c.Family, c.Kind, c.Detail, c.A, c.B, c.ExecA, c.ExecB)
+	return fmt.Sprintf("%s/%s %s fwd=%s A=%+v B=%+v execA=%v execB=%v", c.Family, c.Kind, c.Detail, c.Forwarded, c.A, c.B, c.ExecA, c.ExecB)
 }
 
 func viewFinalizer() config.Mechanism {
@@ -256,6 +257,7 @@ func checkCase(t *rapid.T, c caseSpec, excl map[string]bool) {
 	vkit.S.Eval()
 	vkit.S.Label("family=" + c.Family)
 	vkit.S.Label("pair=" + c.Kind)
+	vkit.S.LabelIf(c.Forwarded != "", "forwarded="+c.Forwarded)
 	vkit.S.LabelIf(onB != firstA, "pair_outcomes_differ")
 
 	if c.NT || c.Kind != "equal" {
@@ -355,13 +357,33 @@ func genSubjectHandlerCase(t *rapid.T, family string) caseSpec {
 	var hdrA, hdrB []vkit.HeaderKV
 
 	if family == "generic_contextualizer" {
-		pc["forward_headers"] = []any{"X-Tenant"}
-		pc["forward_cookies"] = []any{"region"}
 		hdrA = []vkit.HeaderKV{{Name: "X-Tenant", Value: "t1"}, {Name: "Cookie", Value: "region=eu"}}
 		hdrB = hdrA
 	}
 
 	c.Kind = rapid.SampledFrom([]string{"equal", "equal", "subject", "value", "payload", "expressions", "shifted-values", "forwarded-header", "forwarded-cookie"}).Draw(t, "pairKind")
+
+	if family == "generic_contextualizer" {
+		// headers and cookies are forwarded independently of each other; the component which differs is always forwarded
+		fwd := rapid.SampledFrom([]string{"both", "headers", "cookies", "none"}).Draw(t, "forwarded")
+
+		switch {
+		case c.Kind == "forwarded-header" && (fwd == "cookies" || fwd == "none"):
+			fwd = "headers"
+		case c.Kind == "forwarded-cookie" && (fwd == "headers" || fwd == "none"):
+			fwd = "cookies"
+		}
+
+		if fwd == "both" || fwd == "headers" {
+			pc["forward_headers"] = []any{"X-Tenant"}
+		}
+
+		if fwd == "both" || fwd == "cookies" {
+			pc["forward_cookies"] = []any{"region"}
+		}
+
+		c.Forwarded = fwd
+	}
 
 	switch c.Kind {
 	case "equal":
@@ -436,8 +458,6 @@ func genGenericAuthenticatorCase(t *rapid.T) caseSpec {
 		"identity_info_endpoint":     map[string]any{"url": remote.URL() + "/whoami", "method": "GET", "headers": hdrs},
 		"authentication_data_source": []any{map[string]any{"header": "X-Session"}},
 		"subject":                    map[string]any{"id": "id"},
-		"forward_headers":            []any{"X-Tenant"},
-		"forward_cookies":            []any{"region"},
 		"cache_ttl":                  "5m",
 	}
 
@@ -450,6 +470,26 @@ func genGenericAuthenticatorCase(t *rapid.T) caseSpec {
 	sessionB, tenantB, regionB := session, tenantA, regionA
 
 	c.Kind = rapid.SampledFrom([]string{"equal", "equal", "credential", "forwarded-header", "forwarded-cookie"}).Draw(t, "pairKind")
+
+	// headers and cookies are forwarded independently of each other; the component which differs is always forwarded
+	fwd := rapid.SampledFrom([]string{"both", "headers", "cookies", "none"}).Draw(t, "forwarded")
+
+	switch {
+	case c.Kind == "forwarded-header" && (fwd == "cookies" || fwd == "none"):
+		fwd = "headers"
+	case c.Kind == "forwarded-cookie" && (fwd == "headers" || fwd == "none"):
+		fwd = "cookies"
+	}
+
+	if fwd == "both" || fwd == "headers" {
+		pc["forward_headers"] = []any{"X-Tenant"}
+	}
+
+	if fwd == "both" || fwd == "cookies" {
+		pc["forward_cookies"] = []any{"region"}
+	}
+
+	c.Forwarded = fwd
 
 	switch c.Kind {
 	case "equal":
